@@ -3,19 +3,19 @@
    BVM, local symbol tables), sharing nothing with the reader model.  It judges
    the writer's output in C04/C11/C12 and is the reference in C03/C07.  No proofs. *)
 From Coq Require Import String List NArith ZArith Bool.
-From IonV Require Import Base.Wire Data.Ion Num.Float.
+From IonV Require Import Base.Wire Base.Utf8 Data.Ion Num.Float.
 Import ListNotations.
 Open Scope N_scope.
 
 (* ---- primitive fields, by the book ----------------------------------------------------- *)
-Fixpoint take (n : nat) (l : list N) : option (list N * list N) :=
-  match n, l with
-  | O, _ => Some ([], l)
-  | S k, x :: r => match take k r with Some (a, b) => Some (x :: a, b) | None => None end
-  | S _, [] => None
+(* the first n bytes and the rest; None when fewer than n are left (n may be astronomically large) *)
+Fixpoint take_n_aux (l : list N) (n : N) (acc : list N) : option (list N * list N) :=
+  if n =? 0 then Some (rev_append acc [], l) else
+  match l with
+  | [] => None
+  | x :: r => take_n_aux r (n - 1) (x :: acc)
   end.
-Definition take_n (n : N) (l : list N) : option (list N * list N) :=
-  if N.of_nat (length l) <? n then None else take (N.to_nat n) l.
+Definition take_n (n : N) (l : list N) : option (list N * list N) := take_n_aux l n [].
 
 (* VarUInt: big-endian 7-bit groups, the last one flagged; any number of groups *)
 Fixpoint sp_varuint (l : list N) (acc : N) : option (N * list N) :=
@@ -145,7 +145,7 @@ Fixpoint sp_value (fuel : nat) (ctx : symctx) (l : list N) : option (option valu
           else if t =? 6 then ret (VTimestamp body)
           else if t =? 7 then
             (match resolve_sid ctx (sp_uint body) with Some y => ret (VSymbol y) | None => None end)
-          else if t =? 8 then ret (VString body)
+          else if t =? 8 then (if utf8_valid body then ret (VString body) else None)
           else if t =? 9 then ret (VClob body)
           else if t =? 10 then ret (VBlob body)
           else if t =? 11 then option_map (fun vs => (Some (VList vs), rest)) (sp_items (sp_value f ctx) blen body)
@@ -245,7 +245,7 @@ Fixpoint sp_stream (k : nat) (ctx : symctx) (l : list N) : option (list value) :
       match l with
       | 224 :: 1 :: 0 :: 234 :: r => sp_stream k' system_ctx r         (* version marker: reset *)
       | _ =>
-        match sp_value (S (length l)) ctx l with
+        match sp_value k ctx l with      (* k >= bytes left >= nesting depth *)
         | Some (None, r) => sp_stream k' ctx r
         | Some (Some v, r) =>
           match is_lst v with
